@@ -59,6 +59,7 @@ class P:
         self.excluded = 0
         nprog = 600 if tier == "quick" else 40000
         bases = []
+        intended = []
         A = ("ref", "a")
         crafted = [[("un", p, ("post", ("post", A, "++"), q))] for p in prefix for q in postfix] + \
                   [[("post", ("post", ("post", A, "++"), "--"), "++")], [("post", ("un", "-", ("post", A, "++")), "--")],
@@ -78,11 +79,18 @@ class P:
                 if len(s2) != len(s): spans = []   # positions shifted: only whitespace variants for this one
                 s = s2
             bases.append((s, spans, juxt, stmt_starts))
+            intended.append(progs.stmts_proto(ts) if spans else None)
         # token spans from the impl's tokenizer
-        lex = core.run_impl(["b%d LEX:%s" % (i, hx(s)) for i, (s, *_r) in enumerate(bases)])
+        lex = core.run_impl(["b%d LEX:%s PARSE:%s" % (i, hx(s), hx(s)) for i, (s, *_r) in enumerate(bases)])
+        self.fused = 0
         items = []
         for i, (s, spans, juxt, stmt_starts) in enumerate(bases):
-            lt = astproto.parse_tokens(lex.get("b%d" % i, ""))
+            both = lex.get("b%d" % i, " ").split(" ")
+            lt = astproto.parse_tokens(both[0])
+            # subexpression spans are those of the INTENDED tree: valid only if the text really parses to it (juxtaposed
+            # statements may fuse: `a` `(1)` is a call, `a` `- 1` a subtraction)
+            if len(both) > 1 and both[1].split(":")[0] == "OK" and intended[i] is not None and both[1].split(":")[1] != intended[i]:
+                spans = []; self.fused += 1
             if not lt or lt[1] != "EOF": continue
             toks = lt[0]
             # the property quantifies over programs whose names are not operator words
@@ -124,7 +132,8 @@ class P:
         return flow.mk_cases("layout", items)
 
     def extra_coverage(self):
-        return {"bases_excluded_names_are_operator_words": getattr(self, "excluded", 0)}
+        return {"bases_excluded_names_are_operator_words": getattr(self, "excluded", 0),
+                "bases_whose_juxtaposed_statements_fused_no_paren_variants": getattr(self, "fused", 0)}
 
     def show(self, case):
         return case.meta[0] if case.meta else case.line[:200]
